@@ -6,7 +6,7 @@ import copy
 
 from ECAgent.Collectors import Collector
 
-from .common import SID, Model, Rec, RefSched, SystemNotFoundError, gen_flavour, gen_prio, rec_class
+from .common import model_class, SID, Model, Rec, RefSched, SystemNotFoundError, gen_flavour, gen_prio, rec_class
 
 PROPERTY = "C01"
 QUICK_RUNS = 24000
@@ -116,7 +116,7 @@ def execute(sc, ctx):
                           f"after {j_ + 1} add/remove cycles of one system the execution queue holds "
                           f"{len(tm.systems.execution_queue)} entries and the registry {len(tm.systems.systems)}")
         ctx.probe("process_with_many_earlier_registrations" if sc["churn"] > 1000 else "process_with_earlier_registrations")
-    model = Model(seed=20260927)
+    model = model_class(sc, ctx)(seed=20260927)
     sm = model.systems
     ref = RefSched()
     pool = sc["pool"]
